@@ -26,6 +26,9 @@ def run(ctx):
     rule_N2(ctx)
     rule_N3(ctx, classes={'Union', 'NautilusBound', 'Ellipsoid', 'UnitCubeEllipsoidMixture',
                           'NeuralBound', 'UnitCube'})
+    from ..rowfacts import rule_M9
+    k9 = rule_M9(ctx)
+    ctx.require(k9 >= 4, 'M9 decided only %d cache obligations (floor 4)' % k9)
     rule_V2(ctx)      # the closed-form volumes, as exact algebra
     from ..initrules import rule_I2
     rule_I2(ctx)      # counters and cache start from zero in compute() and reset()
